@@ -1,1 +1,306 @@
-(* placeholder *)
+(* BufferSim.v — C05 "buffered mode is transparent and defers writes", C06 "objects on one file share one
+   buffered state": while nobody else writes the files and every operation is issued in a state in which the
+   objects of its file agree on being buffered, the buffered machine (Model/Buffer.v) implements "one plain
+   structure per file" = [logical s f].
+
+   S1 vmerge_VEq            proved as stated
+   S2 op_transparent        proved for the invariant [coherent_strong], with ONE added hypothesis (see CHANGED)
+   S3 exit_preserves        proved for [coherent_strong], with ONE added hypothesis (see CHANGED)
+   S4 buffered_op_defers    proved as stated
+   S5 admin_preserves       proved for [coherent_strong], with ONE added hypothesis (see CHANGED)
+   plus: coherent_strong_coherent, coherent_strong_init, ext_unbuffered_preserves (an outside writer creating or
+   changing a file that is not in the buffer keeps the invariant: this is how files come into existence).
+
+   The proofs live in Proofs/BufferSimAux1.v .. BufferSimAux7.v (compiled by hand, in that order):
+     Aux1 VEq, merge (S1), lists, built-in operations keep keys unique, apply_at against plain_at
+     Aux2 S4
+     Aux3 the invariant and the state transformers it is preserved by
+     Aux4 flush_one, flush_loop, flush_buffer, check_capacity, set_capacity
+     Aux5 implication to [coherent], initial state, S3, S5, outside writer
+     Aux6 load, save
+     Aux7 S2 *)
+From Coq Require Import List ZArith NArith Bool Lia.
+From SC Require Import Model.Val Model.Plain Model.Ops Proofs.TreeDefs Proofs.TreeBase Model.Buffer
+  Proofs.BufferDefs Corr.KBuf.
+From SC Require Proofs.BufferSimAux1 Proofs.BufferSimAux2 Proofs.BufferSimAux3 Proofs.BufferSimAux4
+  Proofs.BufferSimAux5 Proofs.BufferSimAux6 Proofs.BufferSimAux7.
+Import ListNotations.
+Local Open Scope Z_scope.
+
+Module A1 := BufferSimAux1.
+Module A2 := BufferSimAux2.
+Module A3 := BufferSimAux3.
+Module A4 := BufferSimAux4.
+Module A5 := BufferSimAux5.
+Module A7 := BufferSimAux7.
+
+(* the [val] arguments of an operation (same as MachineDefs.nop_vals) *)
+Definition nop_vals_b : nop -> list val := A1.nop_vals_b.
+
+(* ---- the components of the strengthened invariant (definitions repeated from BufferSimAux3.v) ---- *)
+(* one entry against the disk: no outside change since it entered the buffer; Ser: the content whose hash was
+   recorded is the disk content; Shm: an unmodified container equals the disk *)
+Definition ent1 (strat : strategy) (s : bstate) (f : nat) (e : entry) : Prop :=
+  e_meta e = stamp s f /\ exists d, read_disk s f = Some d /\
+    match strat with
+    | Ser => VEq (e_hash e) d
+    | Shm => e_mod e = false -> VEq (heap_at s (e_loc e)) d
+    end.
+Definition ent_ok strat (s : bstate) : Prop := forall f e, nlookup f (b_buffer s) = Some e -> ent1 strat s f e.
+(* the file of every object exists *)
+Definition objs_disk (s : bstate) : Prop :=
+  forall oid o, nlookup oid (b_objs s) = Some o -> read_disk s (bo_file o) <> None.
+(* registered objects exist *)
+Definition bcs_known (s : bstate) : Prop := forall oid, In oid (b_bcs s) -> known_obj s oid.
+(* shared memory: containers are never shared between files, are allocated, and those of entries exist *)
+Definition locs_ok (strat : strategy) (s : bstate) : Prop :=
+  strat = Shm -> exists own : nat -> nat,
+    (forall oid o, nlookup oid (b_objs s) = Some o -> own (bo_loc o) = bo_file o /\ (bo_loc o < b_nloc s)%nat)
+    /\ (forall f e, nlookup f (b_buffer s) = Some e ->
+          own (e_loc e) = f /\ (e_loc e < b_nloc s)%nat /\ nlookup (e_loc e) (b_heap s) <> None).
+
+(* ------------------------------------------------------------------ *)
+(* counterexamples to the statements as first given                    *)
+(* ------------------------------------------------------------------ *)
+Module Counter.
+  Definition bl : val -> Z := fun _ => 1.
+  Lemma bl_ok : A4.blen_ok bl.
+  Proof. intros v. unfold bl. lia. Qed.
+  Definition ka := KStr [97%N].
+  Definition kb := KStr [98%N].
+  Definition step (s : bstate) (op : bop) : bstate := fst (bstep_fn Shm bl s op).
+  Definition t0 := b_init 100.
+  Definition t1 := step t0 (BExt 0 (VD [])).
+  Definition t2 := step t1 (BExt 5 (VD [])).
+  Definition t3 := step t2 (BNew 1 5 KDict).
+  Definition t4 := step t3 (BEnterObj 1).
+  Definition t5 := step t4 (BOp 1 [] (OD (DSet ka (VS (SInt 1))))).
+
+  Lemma t1_ok : A3.coherent_strong Shm bl t1.
+  Proof.
+    refine (proj1 (A5.ext_unbuffered_preserves Shm bl t0 0 (VD []) t1 _ (A5.coherent_strong_init Shm bl 100 _) eq_refl eq_refl
+                     (surjective_pairing _))). lia.
+  Qed.
+  Lemma t2_ok : A3.coherent_strong Shm bl t2.
+  Proof.
+    exact (proj1 (A5.ext_unbuffered_preserves Shm bl t1 5 (VD []) t2 _ t1_ok eq_refl eq_refl (surjective_pairing _))).
+  Qed.
+  Lemma t3_ok : A3.coherent_strong Shm bl t3.
+  Proof.
+    refine (proj1 (A5.admin_preserves_aux Shm bl bl_ok t2 (BNew 1 5 KDict) t3 _ t2_ok I I _ _ (surjective_pairing _))).
+    - intros oid f k E. inversion E; subst. vm_compute. split; [reflexivity|discriminate].
+    - intros oid E. discriminate.
+  Qed.
+  Lemma t4_ok : A3.coherent_strong Shm bl t4.
+  Proof.
+    refine (proj1 (A5.admin_preserves_aux Shm bl bl_ok t3 (BEnterObj 1) t4 _ t3_ok I I _ _ (surjective_pairing _))).
+    - intros oid f k E. discriminate.
+    - intros oid E. inversion E; subst. eexists. vm_compute. reflexivity.
+  Qed.
+  Lemma t5_ok : A3.coherent_strong Shm bl t5.
+  Proof.
+    refine (proj1 (A7.op_transparent_aux Shm bl bl_ok t4 1 [] (OD (DSet ka (VS (SInt 1)))) t5 _ 5%nat (VD [])
+                     t4_ok _ _ _ _ _ _ (surjective_pairing _) _)).
+    - eexists. vm_compute. reflexivity.
+    - left. vm_compute. reflexivity.
+    - vm_compute. reflexivity.
+    - vm_compute. reflexivity.
+    - intros v [<-|[]]. reflexivity.
+    - vm_compute. discriminate.
+    - vm_compute. discriminate.
+  Qed.
+
+  (* S3 as first given (no [known_obj] for BExitObj) is false for Shm, whatever invariant is used:
+     leaving the context of an object that was never created wipes the shared container at location 0 *)
+  Example exit_unknown_object_loses_data :
+    A3.coherent_strong Shm bl t5
+    /\ logical Shm t5 5 = Some (VD [(ka, VS (SInt 1))])
+    /\ logical Shm (step t5 (BExitObj 99)) 5 = Some (VD [])
+    /\ ~ VEq (VD []) (VD [(ka, VS (SInt 1))]).
+  Proof.
+    split; [exact t5_ok|]. split; [vm_compute; reflexivity|]. split; [vm_compute; reflexivity|].
+    intros H. inversion H as [| |d e H1 H2]; subst. specialize (H2 ka eq_refl). vm_compute in H2. discriminate.
+  Qed.
+
+  (* S5 as first given (no [known_obj] for BEnterObj) cannot hold together with S2, whatever invariant is used:
+     entering the context of an object that was never created makes it an object of file 0 at location 0,
+     and an operation through it (uniformly buffered, on file 0) then changes the content of file 5 *)
+  Example enter_unknown_object_breaks_transparency :
+    let u := step t5 (BEnterObj 99) in
+    A3.coherent_strong Shm bl t5
+    /\ known_obj u 99 /\ uniform_for u 99 /\ bo_file (get_obj u 99) = 0%nat /\ logical Shm u 0 = Some (VD [])
+    /\ logical Shm u 5 = Some (VD [(ka, VS (SInt 1))])
+    /\ logical Shm (step u (BOp 99 [] (OD (DSet kb (VS (SInt 2)))))) 5 = Some (VD [(kb, VS (SInt 2))])
+    /\ ~ A3.coherent_strong Shm bl u.
+  Proof.
+    cbv zeta. split; [exact t5_ok|]. split; [eexists; vm_compute; reflexivity|].
+    split; [left; vm_compute; reflexivity|]. split; [vm_compute; reflexivity|]. split; [vm_compute; reflexivity|].
+    split; [vm_compute; reflexivity|]. split; [vm_compute; reflexivity|].
+    intros (C & _). destruct (A3.c_locs _ _ _ C eq_refl) as [own [L1 _]].
+    assert (H1 : own 0%nat = 5%nat).
+    { refine (proj1 (L1 1%nat {| bo_file := 5; bo_loc := 0; bo_buf := 1; bo_kind := KDict |} _)). vm_compute. reflexivity. }
+    assert (H2 : own 0%nat = 0%nat).
+    { refine (proj1 (L1 99%nat {| bo_file := 0; bo_loc := 0; bo_buf := 1; bo_kind := KDict |} _)). vm_compute. reflexivity. }
+    congruence.
+  Qed.
+
+  (* S2 as first given (no applicability hypothesis) is false:
+     (a) an argument error is raised before the path is looked at, the built-in operation at a position that
+         does not exist is undefined; (b) a root clear/reset does not look at the file, whose content may be of
+         the other kind *)
+  Example op_rejected_argument_at_missing_path :
+    snd (bstep_fn Shm bl t3 (BOp 1 [PKey ka] (OD (DUpdate (VS SNull))))) = BErr EType
+    /\ logical Shm t3 5 = Some (VD [])
+    /\ forall j, VEq j (VD []) -> plain_at [PKey ka] (OD (DUpdate (VS SNull))) j = None.
+  Proof.
+    split; [vm_compute; reflexivity|]. split; [vm_compute; reflexivity|].
+    intros j H. inversion H as [| |d e H1 H2]; subst. cbn [plain_at].
+    destruct (alookup ka d) as [x|] eqn:E; [|reflexivity]. destruct (H1 _ _ E) as [y [Hy _]]. discriminate.
+  Qed.
+  Example op_root_clear_on_other_kind :
+    let s := step (step (step t0 (BExt 5 (VL []))) (BNew 1 5 KDict)) (BEnterObj 1) in
+    snd (bstep_fn Shm bl s (BOp 1 [] (OD DClear))) = BOk (VS SNull)
+    /\ logical Shm s 5 = Some (VL [])
+    /\ forall j, VEq j (VL []) -> plain_at [] (OD DClear) j = None.
+  Proof.
+    cbv zeta. split; [vm_compute; reflexivity|]. split; [vm_compute; reflexivity|].
+    intros j H. inversion H; subst. reflexivity.
+  Qed.
+End Counter.
+
+(* ------------------------------------------------------------------ *)
+(* the theorems                                                        *)
+(* ------------------------------------------------------------------ *)
+Section BufferSim.
+  Variable strat : strategy.
+  Variable blen : val -> Z.
+  Hypothesis blen_nonneg : forall v, 0 <= blen v.
+
+  (* the strengthened coherence invariant: [coherent] of BufferDefs.v (first five components and reg_inv), plus
+     what makes it inductive *)
+  Definition coherent_strong (s : bstate) : Prop :=
+    (acct strat blen s /\ stack_ok s /\ values_wf s /\ ent_ok strat s /\ objs_disk s /\ bcs_known s /\ locs_ok strat s)
+    /\ reg_inv s /\ b_size s <= b_cap s.
+
+  Lemma coherent_strong_iff s : coherent_strong s <-> A3.coherent_strong strat blen s.
+  Proof.
+    unfold coherent_strong, A3.coherent_strong. split.
+    - intros ((H1 & H2 & H3 & H4 & H5 & H6 & H7) & R & S). split; [constructor; assumption|auto].
+    - intros (C & R & S). destruct C. auto 10.
+  Qed.
+
+  Theorem coherent_strong_coherent s : coherent_strong s -> coherent strat blen s.
+  Proof. intros H. apply A5.coherent_strong_coherent. apply coherent_strong_iff. exact H. Qed.
+
+  Theorem coherent_strong_init cap : 0 <= cap -> coherent_strong (b_init cap).
+  Proof. intros H. apply coherent_strong_iff. apply A5.coherent_strong_init. exact H. Qed.
+
+  (* S1: the merge yields the new data, up to key order *)
+  Theorem vmerge_VEq old new : wf_val old = true -> wf_val new = true ->
+    VEq (vmerge old new) new /\ wf_val (vmerge old new) = true.
+  Proof. apply A1.vmerge_VEq. Qed.
+
+  (* S2 (C05_transparent / C06_shared_visibility).
+     CHANGED: (1) [coherent_strong] in place of [coherent] (as planned: [coherent] is not inductive);
+     (2) added hypothesis: when the argument is rejected up front ([pre_err]) or the operation is a root
+     clear/reset (these two do not look at the data), the operation is applicable at position p of the file's
+     logical content, [plain_at p o c <> None] (the position exists and holds a container of the kind of the
+     operation).  Without it the statement is false (Counter.op_rejected_argument_at_missing_path,
+     Counter.op_root_clear_on_other_kind).  In the remaining cases applicability follows from [r <> BBad]. *)
+  Theorem op_transparent s oid p o s' r f c :
+    coherent_strong s -> known_obj s oid -> uniform_for s oid -> f = bo_file (get_obj s oid) ->
+    logical strat s f = Some c ->
+    (forall v, In v (nop_vals_b o) -> wf_val v = true) ->
+    (pre_err o <> None \/ (p = [] /\ nop_no_load o = true) -> plain_at p o c <> None) ->
+    bstep_fn strat blen s (BOp oid p o) = (s', r) -> r <> BBad ->
+    coherent_strong s'
+    /\ (forall x, r <> BExn x)
+    /\ exists j rp newp,
+         VEq j c /\ plain_at p o j = Some (rp, newp) /\ r = res_of rp
+         /\ (exists c', logical strat s' f = Some c' /\ VEq c' newp)
+         /\ (forall g, g <> f -> match logical strat s g, logical strat s' g with
+                                 | Some a, Some b => VEq b a | None, None => True | _, _ => False end).
+  Proof.
+    intros CS K U Hf Hc Wa Hd H Hr. apply coherent_strong_iff in CS.
+    destruct (A7.op_transparent_aux strat blen blen_nonneg s oid p o s' r f c CS K U Hf Hc Wa Hd H Hr)
+      as (CS' & Hx & j & rp & newp & H1 & H2 & H3 & H4 & H5).
+    split; [apply coherent_strong_iff; exact CS'|]. split; [exact Hx|].
+    exists j, rp, newp. split; [exact H1|]. split; [exact H2|]. split; [exact H3|]. split; [exact H4|].
+    intros g Hg. exact (H5 g Hg).
+  Qed.
+
+  (* S3 (C05_final / C06_flush_keeps_all).
+     CHANGED: (1) [coherent_strong] in place of [coherent]; (2) added hypothesis: the object whose context is
+     left exists.  Without it the statement is false for Shm (Counter.exit_unknown_object_loses_data): the
+     model gives a never-created object file 0 and container 0, and leaving its context overwrites that
+     container. *)
+  Theorem exit_preserves s op s' r :
+    coherent_strong s -> (op = BExitCls \/ exists oid, op = BExitObj oid) ->
+    (forall oid, op = BExitObj oid -> known_obj s oid) ->
+    bstep_fn strat blen s op = (s', r) ->
+    coherent_strong s' /\ (forall x, r <> BExn x)
+    /\ forall g, match logical strat s g, logical strat s' g with
+                 | Some a, Some b => VEq b a | None, None => True | _, _ => False end.
+  Proof.
+    intros CS Hop K H. apply coherent_strong_iff in CS. destruct Hop as [->|[oid ->]].
+    - destruct (A5.exit_cls_preserves strat blen blen_nonneg s s' r CS H) as (CS' & Hx & L).
+      split; [apply coherent_strong_iff; exact CS'|]. split; [exact Hx|]. intros g. exact (L g).
+    - destruct (A5.exit_obj_preserves strat blen blen_nonneg s oid s' r CS (K oid eq_refl) H) as (CS' & Hx & L).
+      split; [apply coherent_strong_iff; exact CS'|]. split; [exact Hx|]. intros g. exact (L g).
+  Qed.
+
+  (* S4 (C05_deferred) *)
+  Theorem buffered_op_defers s oid p o :
+    is_buffered s oid = true ->
+    let s' := fst (bstep_fn strat blen s (BOp oid p o)) in
+    b_forced s' = b_forced s -> b_files s' = b_files s /\ b_writes s' = b_writes s.
+  Proof. apply A2.buffered_op_defers. Qed.
+
+  (* S5.
+     CHANGED: (1) [coherent_strong] in place of [coherent]; (2) added hypothesis: the object whose context is
+     entered exists.  Without it no invariant can make both this statement and op_transparent true
+     (Counter.enter_unknown_object_breaks_transparency). *)
+  Theorem admin_preserves s op s' r :
+    coherent_strong s ->
+    match op with BEnterObj _ | BEnterCls _ | BSetCap _ | BNew _ _ _ => True | _ => False end ->
+    op_caps_ok op ->
+    (forall oid f k, op = BNew oid f k -> nlookup oid (b_objs s) = None /\ read_disk s f <> None) ->
+    (forall oid, op = BEnterObj oid -> known_obj s oid) ->
+    bstep_fn strat blen s op = (s', r) ->
+    coherent_strong s' /\ (forall x, r <> BExn x)
+    /\ forall g, match logical strat s g, logical strat s' g with
+                 | Some a, Some b => VEq b a | None, None => True | _, _ => False end.
+  Proof.
+    intros CS Hop Hc Hn Hk H. apply coherent_strong_iff in CS.
+    destruct (A5.admin_preserves_aux strat blen blen_nonneg s op s' r CS Hop Hc Hn Hk H) as (CS' & Hx & L).
+    split; [apply coherent_strong_iff; exact CS'|]. split; [exact Hx|]. intros g. exact (L g).
+  Qed.
+
+  (* an outside writer creating or changing a file that is not in the buffer keeps the invariant; the other
+     files keep their logical content *)
+  Theorem ext_unbuffered_preserves s f v s' r :
+    coherent_strong s -> nlookup f (b_buffer s) = None -> wf_val v = true ->
+    bstep_fn strat blen s (BExt f v) = (s', r) ->
+    coherent_strong s' /\ (forall x, r <> BExn x) /\ logical strat s' f = Some v
+    /\ forall g, g <> f -> match logical strat s g, logical strat s' g with
+                           | Some a, Some b => VEq b a | None, None => True | _, _ => False end.
+  Proof.
+    intros CS Hn Wv H. apply coherent_strong_iff in CS.
+    destruct (A5.ext_unbuffered_preserves strat blen s f v s' r CS Hn Wv H) as (CS' & Hx & L & Lf).
+    split; [apply coherent_strong_iff; exact CS'|]. split; [exact Hx|]. split; [exact Lf|].
+    intros g Hg. exact (L g Hg).
+  Qed.
+End BufferSim.
+
+Print Assumptions vmerge_VEq.
+Print Assumptions op_transparent.
+Print Assumptions exit_preserves.
+Print Assumptions buffered_op_defers.
+Print Assumptions admin_preserves.
+Print Assumptions coherent_strong_coherent.
+Print Assumptions coherent_strong_init.
+Print Assumptions ext_unbuffered_preserves.
+Print Assumptions Counter.exit_unknown_object_loses_data.
+Print Assumptions Counter.enter_unknown_object_breaks_transparency.
+Print Assumptions Counter.op_rejected_argument_at_missing_path.
+Print Assumptions Counter.op_root_clear_on_other_kind.
